@@ -190,6 +190,18 @@ public:
 #include "props_util.hpp"
 
 using namespace boost::mqtt5;
+// scripted authenticator: every step succeeds with data "d<step>" unless the step is in the fail mask; each call is logged
+struct sim_auth {
+    std::string m; unsigned failmask = 0; asio::any_io_executor ex;
+    std::string_view method() const { return m; }
+    template <typename T> decltype(auto) async_auth(auth_step_e step, std::string data, T&& token) {
+        return asio::async_initiate<T, void(error_code, std::string)>([this, step, data](auto h) {
+            verif::ev("auth " + std::to_string((int)step) + " " + tohex(data));
+            error_code ec = (failmask >> (int)step) & 1 ? error_code(asio::error::access_denied) : error_code{};
+            auto hh = std::make_shared<decltype(h)>(std::move(h)); std::string out = "d" + std::to_string((int)step);
+            asio::post(ex, [hh, ec, out]() { std::move(*hh)(ec, out); }); }, token);
+    }
+};
 using ctx_t = detail::stream_context<verif::sim_socket, std::monostate>;
 using stream_t = detail::autoconnect_stream<verif::sim_socket, ctx_t, noop_logger>;
 
@@ -218,6 +230,7 @@ struct W {
     detail::log_invoke<noop_logger> log;
     std::unique_ptr<stream_t> s;
     std::map<int, std::unique_ptr<std::string>> rbufs;
+    unsigned authfail = 0;
     W() { s = std::make_unique<stream_t>(ioc.get_executor(), ctx, log); }
 };
 
@@ -232,6 +245,8 @@ int main() {
             while (is >> k) { auto eq = k.find('='); std::string key = k.substr(0, eq), val = k.substr(eq + 1);
                 if (key == "brokers") X.s->brokers(unhex(val), 1883);
                 else if (key == "lazycancel") verif::LAZY = val == "1";
+                else if (key == "auth") { std::string meth = unhex(val); m.authenticator = detail::any_authenticator(sim_auth { meth, X.authfail, X.ioc.get_executor() }); }
+                else if (key == "authfail") X.authfail = (unsigned)std::stoul(val);
                 else if (key == "ka") m.keep_alive = (uint16_t)std::stoul(val);
                 else if (key == "cid") m.creds.client_id = unhex(val);
                 else if (key == "user") m.creds.username = unhex(val);
@@ -273,7 +288,8 @@ int main() {
         if (bad) { std::puts("bad-op"); std::fflush(stdout); continue; }
         for (;;) { w->ioc.restart(); if (w->ioc.poll() == 0) break; }
         std::string out; for (auto& e : verif::LOG) { if (!out.empty()) out += " | "; out += e; }
-        std::printf("%s ; locked=%d open=%d cur=K%d wc=%d\n", out.empty() ? "-" : out.c_str(), (int)w->s->_conn_mtx.is_locked(), (int)w->s->is_open(), w->s->_stream_ptr->st->id, (int)w->s->was_connected());
+        std::printf("%s ; locked=%d open=%d cur=K%d wc=%d sp=%d caps=%s\n", out.empty() ? "-" : out.c_str(), (int)w->s->_conn_mtx.is_locked(), (int)w->s->is_open(), w->s->_stream_ptr->st->id, (int)w->s->was_connected(),
+            (int)w->ctx.mqtt_context().state.session_present(), pu::dump(w->ctx.mqtt_context().ca_props).c_str());
         std::fflush(stdout);
     }
 }
